@@ -31,8 +31,28 @@ CHARSETS = ['latin1', 'utf-8', 'cp1252', 'ascii', 'shift_jis', 'euc_jp', 'big5',
 TEXT_ATTR = {t: a for t, (_, a) in M.TEXT_TYPES.items()}
 
 
-def probe(where):
+def probe(where, texts=()):
     out = []
+    # the very texts the call has just handled must also be back to latin1 (a cache keyed by text would leak here)
+    for t in texts:
+        try:
+            want = list(t.encode('latin1'))
+        except UnicodeEncodeError:
+            want = None
+        try:
+            got = mido.MetaMessage('lyrics', text=t).bytes()
+            pay = got[2 + len(M.vlq(len(want))):] if want is not None else None
+            if want is None or pay != want:
+                out.append(fail('charset-leak', f'after {where}: MetaMessage("lyrics", text={t!r}).bytes() = {got[:12]} '
+                                                f'(latin1 payload would be {want})', where=where))
+                break
+        except UnicodeEncodeError:
+            if want is not None:
+                out.append(fail('charset-leak', f'after {where}: text {t!r} no longer encodes as latin1', where=where))
+                break
+        except Exception as exc:  # noqa: BLE001
+            out.append(fail('charset-leak', f'after {where}: probe raised {exc!r}', where=where))
+            break
     try:
         b = mido.MetaMessage('text', text='é').bytes()
         if b[-1:] != [0xE9] or len(b) != 4:
@@ -59,7 +79,11 @@ def events_of(case):
 
 def build(case, evs=None):
     evs = evs if evs is not None else events_of(case)
-    mid = mido.MidiFile(type=1, ticks_per_beat=480, charset=case['charset'])
+    if case.get('assign_charset'):
+        mid = mido.MidiFile(type=1, ticks_per_beat=480)
+        mid.charset = case['charset']            # the public attribute, set after construction
+    else:
+        mid = mido.MidiFile(type=1, ticks_per_beat=480, charset=case['charset'])
     mid.tracks.append(mido.MidiTrack([M.to_mido(d) for d in evs]))
     return mid
 
@@ -77,7 +101,7 @@ def check_success(case):
         mid.save(file=buf)
     except Exception as exc:  # noqa: BLE001
         return [fail('save-raises', f'{cs} {case["texts"]!r}: {exc!r}', exc=exc_sig(exc), charset=cs)] + probe('save')
-    out += probe('save')
+    out += probe('save', [t for _, t in case['texts']])
     b = buf.getvalue()
     try:
         _, tracks, flags = F.strict_decode(b)
@@ -97,7 +121,7 @@ def check_success(case):
                                                   f'{[t for _, t in case["texts"]]!r}', charset=cs))
         except Exception as exc:  # noqa: BLE001
             out.append(fail('load-raises', f'{cs} ({source}): {exc!r}', exc=exc_sig(exc), charset=cs))
-        out += probe('load')
+        out += probe('load', [t for _, t in case['texts']])
     return out
 
 
@@ -152,7 +176,7 @@ def check_fault(case):
         except Exception as exc:  # noqa: BLE001
             raised = exc
         where = f'save[{kind}]'
-    out = probe(where)
+    out = probe(where, [t for _, t in case['texts']] + ([f['text']] if 'text' in f else []))
     case['_raised'] = raised is not None
     return out
 
@@ -245,7 +269,7 @@ def base_cases(draw):
             ok = False
         assume(ok)
         texts.append([t, text])
-    return {'charset': cs, 'texts': texts}
+    return {'charset': cs, 'texts': texts, 'assign_charset': draw(st.booleans())}
 
 
 def hyp_shard(rec, shard):
@@ -280,6 +304,7 @@ def main(ctx):
                      ('koi8_r', 'привет'), ('cp437', 'é'), ('iso8859_15', '€'), ('utf-16', 'aé'), ('utf-16-le', 'a'),
                      ('utf-32', ''), ('cp500', 'abc'), ('utf-7', 'a+b'), ('ascii', 'plain'), ('latin1', 'éÿ')):
         ctx.check({'charset': cs, 'texts': [['text', text], ['track_name', text]]})
+        ctx.check({'charset': cs, 'texts': [['lyrics', text]], 'assign_charset': True})
     ctx.exhaustive = False
     ctx.extra['fault_points'] = 'per drawn file: every truncation offset, 2 high data bytes, 5 undecodable payloads, bad key, ' \
                                 '3+2 bad charset names, float time / real-time / unencodable text at every event index, type-0'
